@@ -163,6 +163,50 @@ def h_recv_priority(client, state):
     return h
 
 
+def h_recv_headers_priority(trailers):
+    """a peer-built HEADERS frame carrying the PRIORITY flag with arbitrary fields (a
+    request opening stream 5, or trailers on the open stream 1)"""
+    def h():
+        with h2h.native():
+            c, s = _witness('open')
+            c.send_headers(5, h2h.REQ)
+            wire = models.parse_frames(c.data_to_send())[0].data
+        sid = 1 if trailers else 5
+        dep = sym_int('depends_on', 0, INT31, default=0)
+        wt = sym_int('wire_weight', 0, 255, default=15)
+        ex = sym_bool('exclusive')
+        f = hf.HeadersFrame(sid)
+        f.flags.add('END_HEADERS')
+        f.flags.add('PRIORITY')
+        if trailers:
+            f.flags.add('END_STREAM')
+            with h2h.native():
+                f.data = c.encoder.encode(h2h.TRAILERS)
+        else:
+            f.data = wire
+        f.depends_on, f.stream_weight, f.exclusive = dep, wt, ex
+        out = models.Out(s)
+        try:
+            evs = h2h.deliver(s, [f])
+        except h2.exceptions.ProtocolError as e:
+            note('self-dependency')
+            check(s_eq(dep, sid), 'priority-rejected', (sid, dep))
+            check(e.error_code == ErrorCodes.PROTOCOL_ERROR, 'self-dependency-code', None)
+            return
+        note('updated')
+        check(s_not(s_eq(dep, sid)), 'self-dependency-accepted', (sid, dep))
+        pe = [e for e in evs if isinstance(e, h2.events.PriorityUpdated)]
+        check(len(pe) == 1, 'one-priority-event', h2h.ev_names(evs))
+        if len(pe) == 1:
+            ev = pe[0]
+            check(s_and(ev.stream_id == sid, ev.weight == wt + 1, ev.depends_on == dep,
+                        bool(ev.exclusive) == bool(ex)), 'event-fields', None)
+            first = evs[0]
+            check(getattr(first, 'priority_updated', None) is ev and evs.index(ev) > 0,
+                  'headers-priority-link', h2h.ev_names(evs))
+    return h
+
+
 def h_headers_priority(combo):
     """send_headers(priority_*) on a new client stream -> HEADERS+PRIORITY -> server"""
     def h():
@@ -255,6 +299,10 @@ def shards(tier, seed):
             continue
         out.append(Shard('headers_priority/args=%d%d%d' % combo, h_headers_priority(combo),
                          expect=['sent']))
+    for trailers in (False, True):
+        out.append(Shard('recv_headers_priority/%s' % ('trailers' if trailers else 'request'),
+                         h_recv_headers_priority(trailers),
+                         expect=['updated', 'self-dependency']))
     out.append(Shard('headers_priority_server', h_headers_priority_server(),
                      expect=['refused']))
     return out
